@@ -304,6 +304,10 @@ def check_C15(tier: str, seed: int) -> int:
 MG_ALPHABET = '{"newarr", "npview", "freeze", "wrap", "op", "opout", "view", "fail", "failout", "clear", "dropt", "dropa"}'
 MG_ALPHA_A = '{"newarr", "npview", "freeze", "wrap", "op", "view", "fail", "clear", "dropt", "dropa"}'
 MG_ALPHA_B = '{"newarr", "npview", "wrap", "op", "opout", "failout", "clear", "dropt", "dropa"}'
+MG_ALPHA_C = '{"newarr", "freeze", "wrap", "op", "inplace", "clear", "dropt", "dropa"}'
+MG_ALPHA_C_ONLY = '{"newarr", "freeze", "wrap", "inplace", "clear", "dropt", "dropa"}'   # one statement deeper
+MG_ALPHABET_SIM = ('{"newarr", "npview", "freeze", "wrap", "op", "opout", "inplace", "view", "fail", "failout", "clear", '
+                   '"dropt", "dropa"}')
 
 
 def _mg_cfg(path, na, nt, no, maxlen, emit, invariants, alphabet=None):
@@ -368,7 +372,8 @@ def check_C08(tier: str, seed: int) -> int:
         na, nt, no = (3, 4, 2)
         out.coverage["states"] = 0
         out.coverage["transitions"] = 0
-        for lab, alpha in (("A: views, freezes, failures", MG_ALPHA_A), ("B: out= targets, failing out=", MG_ALPHA_B)):
+        for lab, alpha in (("A: views, freezes, failures", MG_ALPHA_A), ("B: out= targets, failing out=", MG_ALPHA_B),
+                           ("C: in-place tensor updates", MG_ALPHA_C)):
             _mg_cfg(cfg, na, nt, no, 0, False, ["Safe", "Restored", "NoLeak", "CountersSane"], alpha)
             info, o, violated = core.design_run(out, spec, cfg, workers=16, timeout=3000,
                                                 label=f"MemGuard exhaustive NA={na} NT={nt} NO={no} alphabet {lab}")
@@ -402,8 +407,8 @@ def check_C08(tier: str, seed: int) -> int:
         maxlen = 5 if quick else 6
         behs = []
         o3 = ""
-        for alpha in (MG_ALPHA_A, MG_ALPHA_B):
-            _mg_cfg(cfg3, 3, 4, 2, maxlen, True, ["Emit"], alpha)
+        for alpha, extra_len in ((MG_ALPHA_A, 0), (MG_ALPHA_B, 0), (MG_ALPHA_C, 0), (MG_ALPHA_C_ONLY, 1)):
+            _mg_cfg(cfg3, 3, 4, 2, maxlen + extra_len, True, ["Emit"], alpha)
             rc, o3x, wall = tlc.run_tlc(spec, cfg3, workers=1, timeout=3000, heap="8g")
             bx, bad = replay.parse_behaviours(o3x)
             if rc != 0 or bad or not bx:
@@ -412,7 +417,7 @@ def check_C08(tier: str, seed: int) -> int:
             o3 = o3x
         # (4) long random behaviours (simulation) replayed as well
         cfg4 = os.path.join(scratch, "sim.cfg")
-        _mg_cfg(cfg4, 4, 6, 3, 14, True, ["Emit"])
+        _mg_cfg(cfg4, 4, 6, 3, 14, True, ["Emit"], MG_ALPHABET_SIM)
         rc4, o4, _ = tlc.run_tlc(spec, cfg4, workers=1, timeout=1200,
                                  extra=("-simulate", f"num={400 if quick else 6000}", "-depth", "15", "-seed", str(seed + 1)))
         behs4, bad4 = replay.parse_behaviours(o4)
@@ -457,7 +462,8 @@ def check_C08(tier: str, seed: int) -> int:
     finally:
         shutil.rmtree(scratch, ignore_errors=True)
     out.assumptions += ["CPython reference counting (gc disabled during replay); arrays reachable only through references the "
-                        "harness holds; in-place tensor updates and out= targets are not part of MemGuard.tla's alphabet yet"]
+                        "harness holds; in-place updates are modelled for owner tensors without registered views (views under in-place "
+                        "updates are covered by Ref.tla's traces, which also watch the lock tables through the `leak` clause)"]
     cov = out.coverage
     cov["rule"] = ("MemGuard.tla exhaustive state graph (all orders of drops, clears, failures) at the stated bound; every "
                    "behaviour of the stated length plus seeded simulations replayed on real arrays; distinct = distinct TLC states")
